@@ -46,6 +46,7 @@ def check(repo, res, tier):
     _columns(repo, res, bl)
     _wire(repo, res, bl)
     _ctor(repo, res, bl)
+    check_time_grid(repo, res, paths=("cost", "derivatives"))
     _broadcast(repo, res, bl)
     _kv(repo, res, bl)
 
@@ -90,7 +91,9 @@ def _rows(repo, res, bl):
     X = SymArr.symbols("X", (n_t, nS))
     obs = SymArr.symbols("tobs", (n_t,))
     t0 = A.sym("t0")
-    t_all = SymArr((n_t + 1,), [A.sym("t0_as_stored_in_t")] + list(obs.flat))
+    # the stored solver grid holds the caller's start time followed by the observation times (decided on the constructor by the
+    # time-grid obligation, also for integer-typed observation times), so either source gives the same values
+    t_all = SymArr((n_t + 1,), [t0] + list(obs.flat))
     x0 = SymArr.symbols("x0", (nS,))
     st_idx = [2, 0]
     base_attrs = constructed_attrs(repo, bl)
@@ -138,7 +141,7 @@ def _rows(repo, res, bl):
                 if not (isinstance(r["x0"], SymArr) and r["x0"].same(x0)):
                     problems["integrate-at-observations"].append("%s: starts from %s, expected self._x0" % (tag, r["x0"]))
                 if not (A.lift(r["t0"]) == t0 if not isinstance(r["t0"], (SymArr, Tok, tuple, list)) else False):
-                    problems["integrate-at-observations"].append("%s: start time is %s, expected self._t0 (the first entry of self._t is t0 cast to the type of the observation times)" % (tag, r["t0"]))
+                    problems["integrate-at-observations"].append("%s: start time is %s, expected the caller's start time t0" % (tag, r["t0"]))
                 if not (isinstance(r["t"], SymArr) and r["t"].same(obs)):
                     problems["integrate-at-observations"].append("%s: output times are %s, expected the observation times" % (tag, r["t"]))
                 if r["kw"].get("includeOrigin") not in (None, False, 0):
@@ -383,6 +386,62 @@ def _wire(repo, res, bl):
             res.check(not problems, "R-WIRE", init, tag, "%s builds %s on the observations with weights from state_weight%s" % (cname, kernel, " and %s from the caller's spread" % spread if spread else ""),
                       "%s: %s" % (cname, "; ".join(problems[:2])), node=init.node)
     res.floor("loss classes constructed", n_cls, 5)
+
+
+def check_time_grid(repo, res, rule="R-ROWMATCH", paths=("cost",)):
+    """BaseLoss.__init__ interpreted on concrete arrays: the start time and the observation times the cost path uses (_t0, _observeT)
+    and the grid the sensitivity / Jacobian / Hessian paths use (_t) must both be the caller's (t0, t) - also when the observation
+    times are integer-typed and t0 is not a whole number (numpy casts a value inserted into an integer array)"""
+    from ..core.numarr import NumArr, num_summaries
+    bl = repo.cls(M.M_LOSS, "BaseLoss")
+    init = bl.methods["__init__"]
+    sol_fn = repo.func(M.M_UTILS + ".checks_and_conversions", "str_or_list")
+    model_states = ["S", "I", "R"]
+    problems, n = [], 0
+    for tlabel, tvals in (("real observation times", [1.0, 2.0, 3.5]), ("integer observation times", [1, 2, 4])):
+        for t0 in (0.5, 0, 0.25):
+            t = NumArr(list(tvals))
+            y = NumArr([[0.1 * (i + 1), 0.2 * (i + 1)] for i in range(3)])
+            summ = dict(num_summaries())
+            summ.update({
+                "ode_utils.check_array_type": lambda x, *a, **k: x if isinstance(x, NumArr) else NumArr(list(x)),
+                "Model.integrate2": lambda m_, tt: NumArr([[0.0] * 3 for _ in range(3)]),
+                "Model._iterStateList": lambda m_: list(model_states),
+                "Model.get_state_index": lambda m_, s_: ([model_states.index(s_)] if isinstance(s_, str) else [model_states.index(str(q)) for q in list(s_)]),
+                "Model.get_param_index": lambda m_, s_: (["a", "b", "c"].index(str(s_)) if isinstance(s_, str) else [["a", "b", "c"].index(str(q)) for q in s_]),
+                "Model._iterParamList": lambda m_: ["a", "b", "c"], "Model.param_list": lambda m_: ["a", "b", "c"],
+                "Loss._setWeight_or_spread": lambda me_, *a, **k: Tok("W"), "Loss._setParam": lambda me_, *a, **k: None, "Loss._setX0": lambda me_, *a, **k: None,
+                "Loss._setLossType": lambda me_, *a, **k: Tok("lossObj"),
+                "InputError": lambda *a: Tok("InputError"), "RuntimeError": lambda *a: Tok("RuntimeError"), "AssertionError": lambda *a: Tok("AssertionError"),
+            })
+
+            def str_or_list(x, _f=sol_fn):
+                kind_, v = Abs({}, {}, {}, None).run_function(_f.node, {_f.params[0]: x})
+                if kind_ == "raise":
+                    raise Raised(v)
+                return v
+            summ["ode_utils.str_or_list"] = str_or_list
+            ode = Obj("Model", parameters=Tok("params"), num_param=3, num_state=3)
+            me = Obj("Loss")
+            args = {"theta": NumArr([0.4, 0.3, 0.2]), "ode": ode, "x0": NumArr([1.0, 2.0, 3.0]), "t0": t0, "t": t, "y": y, "state_name": ["R", "I"], "state_weight": None,
+                    "spread_param": None, "target_param": None, "target_state": None}
+            try:
+                kind, out = Abs({}, {"np.ndarray": lambda v: isinstance(v, NumArr)}, summ, me).run_function(init.node, args)
+            except Undecided as e:
+                res.undecided(rule, init, "time-grid", "outside the modelled subset: %s" % e)
+                return
+            n += 1
+            if kind != "return":
+                problems.append("%s, t0=%r: construction raises %s" % (tlabel, t0, out))
+                continue
+            g0, ot, tt = me.attrs.get("_t0"), me.attrs.get("_observeT"), me.attrs.get("_t")
+            want = [t0] + list(tvals)
+            if "cost" in paths and (g0 != t0 or not (isinstance(ot, NumArr) and ot.tolist() == list(tvals))):
+                problems.append("%s, t0=%r: the cost path integrates from %r over %r" % (tlabel, t0, g0, ot.tolist() if isinstance(ot, NumArr) else ot))
+            if "derivatives" in paths and not (isinstance(tt, NumArr) and tt.tolist() == want):
+                problems.append("%s, t0=%r: the grid the sensitivity paths integrate over is %r, the caller's start time and observation times are %r "
+                                "(the cost and its derivatives are then computed on different trajectories)" % (tlabel, t0, tt.tolist() if isinstance(tt, NumArr) else tt, want))
+    res.check(not problems, rule, init, "time-grid", "%d constructions (real and integer observation times, whole and fractional start time): the %s path%s the caller's start time and observation times" % (n, " and ".join(paths), "s use" if len(paths) > 1 else " uses"), "; ".join(problems[:2]), node=init.node)
 
 
 def _ctor(repo, res, bl, rule="R-KV"):
